@@ -68,6 +68,8 @@ InitState(cfg) ==
    saveFailOnly |-> 0,      \* ... refuses exactly this Save (0: none)
    saveFailFrom |-> 0,      \* the application's message store refuses every Save from this one on (0: never)
    nsaves |-> 0,            \* Save calls so far
+   ctrFailOnly |-> 0,       \* the application's counter store refuses exactly this update of the incoming counter (0: none)
+   nsets |-> 0,             \* updates of the incoming counter so far
    staleTR |-> FALSE]       \* (trace validation) a TestRequest of a timer that outlived a logout was tolerated
 
 IsLogged(s)  == s.st = "SL"
@@ -113,17 +115,25 @@ RejectBySeq(s, a) ==
   IF a.sq = "ok" THEN Reject(s, a.seq, -1) ELSE Reject(s, -1, SeqTag)
 
 \* all-types handlers that run before the type handler
+\* (the first of them records the peer's number in the counter store; when that store refuses, the chain of all-types handlers
+\*  ends there -- the ones registered at logon, which restart the inbound timer, are not reached -- and the handlers of the
+\*  message's own type run all the same: C19, "offered to the all-types handlers and then to the handlers of its own type")
 PreDispatch(s, a) ==
-  LET s1 == IF s.st \notin {"WL", "WLA", "NEW"} /\ a.sq = "ok" THEN [s EXCEPT !.inSeq = a.seq] ELSE s
+  LET sets == s.st \notin {"WL", "WLA", "NEW"} /\ a.sq = "ok"
+      fails == sets /\ s.ctrFailOnly > 0 /\ s.nsets + 1 = s.ctrFailOnly
+      s0 == IF sets THEN [s EXCEPT !.nsets = s.nsets + 1] ELSE s
+      s1 == IF sets THEN [s0 EXCEPT !.inSeq = a.seq] ELSE s0
       s2 == IF s1.timers THEN [s1 EXCEPT !.lastIn = s1.now] ELSE s1
-  IN IF s2.timers /\ s2.st = "WTR" THEN [s2 EXCEPT !.st = "SL"] ELSE s2
+  IN IF fails THEN s0
+     ELSE IF s2.timers /\ s2.st = "WTR" THEN [s2 EXCEPT !.st = "SL"] ELSE s2
 
 \* gap detection at logon: ask for everything after the last message received
 GapCheck(s, a) ==
   LET s1 == IF a.sq = "ok" /\ s.inSeq + 1 < a.seq
             THEN Emit(s, [Msg("2", 0) EXCEPT !.b = s.inSeq + 1, !.e = 0])
             ELSE s
-  IN [s1 EXCEPT !.inSeq = IF a.sq = "ok" THEN a.seq ELSE 0]
+      fails == s1.ctrFailOnly > 0 /\ s1.nsets + 1 = s1.ctrFailOnly
+  IN [s1 EXCEPT !.nsets = s1.nsets + 1, !.inSeq = IF fails THEN s1.inSeq ELSE IF a.sq = "ok" THEN a.seq ELSE 0]
 
 StartTimers(s) == [s EXCEPT !.timers = TRUE, !.lastOut = s.now, !.lastIn = s.now]
 
